@@ -137,3 +137,70 @@ def yields_under_guard(fn, acqs=None):
             if y in a.held:
                 out.append((a, y))
     return out
+
+
+def closure_held_context(db, cl, lock_rx):
+    """A closure body runs wherever its value is invoked.  If the closure is created in a body that holds a lock matching
+    `lock_rx` at the creation site, is only handed (directly or wrapped by adapters) to calls made while that same
+    acquisition is still held, and neither the closure nor anything computed from it is returned or stored away, then the
+    closure body runs under that lock.  Returns (parent fn, acquisition) or None."""
+    parent = None
+    for f in [db.fns.get(getattr(cl, "parent", None))]:
+        if f is None:
+            continue
+        for site, s in f.stmts():
+            if s["k"] == "assign" and s["rv"]["k"] == "agg" and s["rv"].get("kind") in ("closure",) and s["rv"].get("def") == cl.id:
+                parent = (f, site, s)
+    if parent is None:
+        return None
+    f, csite, cs = parent
+    acqs = acquisitions(f)
+    a = held_at(f, csite, lock_rx, acqs)
+    if a is None:
+        # the creating body may itself be a closure running under the lock
+        if f.kind == "closure":
+            up = closure_held_context(db, f, lock_rx)
+            if up is None:
+                return None
+            a_site_ok = lambda site: True
+            a = up[1]
+        else:
+            return None
+    else:
+        a_site_ok = lambda site: site in a.held
+    tainted = {cs["lhs"][0]}
+    changed = True
+    n = 0
+    while changed and n < 50:
+        changed = False
+        n += 1
+        for site, s in f.stmts():
+            if s["k"] != "assign":
+                continue
+            rv = s["rv"]
+            ops = []
+            if rv["k"] in ("use", "cast"):
+                ops = [rv["op"]]
+            elif rv["k"] == "agg":
+                ops = rv["ops"]
+            elif rv["k"] in ("ref", "rawptr"):
+                ops = [{"k": "copy", "p": rv["p"]}]
+            if any((op_place(o) or [None])[0] in tainted for o in ops):
+                if s["lhs"][1] and s["lhs"][0] not in tainted and any(e == "*" for e in s["lhs"][1]):
+                    return None            # stored through a pointer: may outlive the guard
+                if s["lhs"][0] not in tainted:
+                    tainted.add(s["lhs"][0])
+                    changed = True
+        for site, t in f.terms():
+            if t["k"] != "call":
+                continue
+            if any((op_place(o) or [None])[0] in tainted for o in t["args"]):
+                if not a_site_ok(site):
+                    return None
+                d = t["dest"][0]
+                if f.local_ty(d) not in ("()", "bool", "usize") and d not in tainted:
+                    tainted.add(d)
+                    changed = True
+    if 0 in tainted:
+        return None
+    return f, a
